@@ -406,6 +406,16 @@ def _check_dispatcher(ctx, prog, root):
             for (blk, c, t) in reads:
                 ok, why = _read_len_from_parser(arm_body, t, cls_local, v)
                 ctx.ob("H3", root.defp, f"{v}:connect-read-length-from-parser", loc(t["sp"]), ok, why)
+                # a consuming read that is repeated must be repeated on the parser's word (request incomplete), never on how many bytes the
+                # last read returned: "the buffer came back full" does not mean more bytes follow - a request head of exactly that size makes
+                # the next read wait for bytes the client will only send after it has seen the answer
+                lp = arm_body.innermost_loop(blk)
+                if lp is not None:
+                    parses = [b2 for (b2, c2, t2) in arm_body.calls() if b2 in lp[1] and (c2.method == "parse" and "httparse" in (c2.target + " " + (c2.self_s or "")))]
+                    ctx.ob("H3", root.defp, f"{v}:connect-read-repeated-only-on-the-parser's-word", loc(t["sp"]), bool(parses),
+                           "the read loop re-parses what it has read and continues while the request is incomplete" if parses else
+                           "the CONNECT arm reads the local stream in a loop that is not steered by the request parser (it continues on the byte count of the previous read): "
+                           "a request head whose size is an exact multiple of the buffer makes the handshake wait for bytes that never come, so a well-formed request gets no answer")
     for v in sorted(set(discr_of) - tunnel_variants - {socks_variant}):
         blocks = arm_blocks(v)
         oks = [blk for (blk, l, op) in okv if blk in blocks]
